@@ -400,6 +400,9 @@ func runC10(w *mon.W) {
 		}
 		want := c10Keys(model)
 		stored := randCase(r, lay.seq, []float64{0, 0.5, 1}[r.Intn(3)])
+		if r.Intn(6) == 0 {
+			stored = caseEdges(r, lay.seq)
+		}
 		if r.Intn(4) == 0 && len(lay.placed) > 0 {
 			// annotation-style case: upper case throughout, only the recognition sites (or one of them) in lower case
 			b := []byte(lay.seq)
